@@ -26,6 +26,19 @@ def size_bound_ms(rec):
     return int(20000 + 0.05 * len(P["tasks"]) * P["N"])
 
 
+def _effort_days(text):
+    """Largest effort written in the text, in working days (the scheduler extends the horizon to make it fit)."""
+    import re
+    unit = {"min": 1 / 480.0, "h": 1 / 8.0, "d": 1.0, "w": 5.0, "m": 22.0, "y": 260.0}
+    worst = 0.0
+    for m in re.finditer(r"effort\s+([0-9]+(?:\.[0-9]+)?)\s*(min|h|d|w|m|y)\b", text):
+        try:
+            worst = max(worst, float(m.group(1)) * unit[m.group(2)])
+        except (ValueError, OverflowError):
+            worst = float("inf")
+    return worst
+
+
 def decide_outcomes(rows):
     fd, path = tempfile.mkstemp(prefix="spout_", suffix=".ndjson")
     try:
@@ -71,14 +84,19 @@ def check(prop, tier, replay=None):
     seeds += [("fix-" + os.path.basename(f), open(f).read()) for f in fx]
     import re
     skipped = 0
+    skipped_eff = 0
     for sid, text in seeds:
         for j, (kind, bad) in enumerate(gen.corruptions(text, rng, n_cor)):
             m = re.search(r'project\s+\S+\s+"[^"]*"\s+\S+\s+\+(\d+)([dwmy])', bad)
             if m and int(m.group(1)) * {"d": 1, "w": 7, "m": 31, "y": 366}[m.group(2)] > 3660:
                 skipped += 1        # declared horizon beyond 10 years: cost is proportional to it and exceeds the tooling cap
                 continue
+            if _effort_days(bad) > 4000:
+                skipped_eff += 1    # the horizon is extended in proportion to the effort: same cost, same tooling cap (8 000 d: 4 s, 99 999 d: > 90 s, measured linear)
+                continue
             jobs.append({"id": "C11-%s~%s%d" % (sid, kind, j), "text": bad, "scenarios": [0]})
     run.notes["skipped_declared_horizon_over_10_years"] = skipped
+    run.notes["skipped_total_effort_over_4000_working_days"] = skipped_eff
     if replay:
         jobs = [json.load(open(replay))]
     for j in jobs:
@@ -130,7 +148,9 @@ def check(prop, tier, replay=None):
                 run.violation(row["id"], by_id[row["id"].split("#sc")[0]], {"run": row, "why": why, "error": rec.get("error", "")[-600:]})
         run.notes["outcome_classes"] = classes
         # traces of accepted runs: C11 flags of TraceSched (crash inside a step, leaf neither scheduled nor warned)
-        vs, res2 = e1.validate([r for r in recs if "project" in r and r.get("status") in ("ok", "crash") and len(r["events"]) <= 4000])
+        tlc_ok = [r for r in recs if "project" in r and r.get("status") in ("ok", "crash") and len(r["events"]) <= 4000 and e1.fits32(r)]
+        run.notes["traces_beyond_tlc_int_range_or_4000_events"] = len([r for r in recs if "project" in r and r.get("status") in ("ok", "crash")]) - len(tlc_ok)
+        vs, res2 = e1.validate(tlc_ok)
         run.add_tlc(res2)
         run.cov["traces_validated_against_impl"] += len(vs)
         for v in vs.values():
